@@ -114,6 +114,11 @@ prev={}
 try: prev=json.load(open(sd+"/verify.json"))
 except Exception: pass
 v["detected_by_other_checks"]= hit if hit else prev.get("detected_by_other_checks",[])
+if app!="1" and prev.get("patch_applies"):
+    # /repo moved on (a later fix rewrote the lines the seed edits): keep the verification made when it applied
+    prev["superseded_at"]=head
+    prev["note"]="the patch applied and was verified at %s; it no longer applies at %s because /repo changed the same lines" % (prev.get("repo_head"), head)
+    v=prev
 json.dump(v,open(sd+"/verify.json","w"),indent=1)
 print(json.dumps(v))
 PY
